@@ -63,6 +63,17 @@ def run_jobs(jobs, nproc, timeout_s):
     pending = list(jobs)
     running = {}
     reports = {}
+    retried = set()
+
+    def died(k, why):
+        # a worker that disappears without a result (killed by the kernel under memory pressure, a native crash of a solver) says
+        # nothing about the code: run that contract once more, alone, before reporting a checker problem
+        if k not in retried:
+            retried.add(k)
+            pending.append(k)
+            return None
+        return _empty_report(k, crash=why)
+
     while pending or running:
         while pending and len(running) < nproc:
             k = pending.pop(0)
@@ -77,14 +88,20 @@ def run_jobs(jobs, nproc, timeout_s):
                 try:
                     r = pc.recv()
                 except EOFError:
-                    r = {'__crash__': 'worker died without a result'}
+                    r = died(k, 'worker died without a result (twice)')
+                    if r is None:
+                        p.join(5)
+                        done.append(k)
+                        continue
                 if '__crash__' in r:
                     r = _empty_report(k, crash=r['__crash__'])
                 reports[k] = r
                 p.join(5)
                 done.append(k)
             elif not p.is_alive():
-                reports[k] = _empty_report(k, crash='worker exited with code %s without a result' % p.exitcode)
+                r = died(k, 'worker exited with code %s without a result (twice)' % p.exitcode)
+                if r is not None:
+                    reports[k] = r
                 done.append(k)
             elif time.time() - t0 > timeout_s:
                 p.kill()
